@@ -468,17 +468,17 @@ Proof.
 Qed.
 
 (* induction over trees with the hypothesis for every child *)
-Fixpoint tree_ind2 (P : tree -> Prop) (HU : P Unk) (HT : forall s, P (Text s))
+Fixpoint tree_ind2 (P : tree -> Prop) (HU : forall cs, Forall P cs -> P (Unk cs)) (HT : forall s, P (Text s))
   (HG : forall name a cs, Forall P cs -> P (Tag name a cs)) (t : tree) {struct t} : P t :=
+  let go := fix go (l : list tree) : Forall P l :=
+              match l with
+              | [] => Forall_nil P
+              | x :: r => Forall_cons x (tree_ind2 P HU HT HG x) (go r)
+              end in
   match t with
-  | Unk => HU
+  | Unk cs => HU cs (go cs)
   | Text s => HT s
-  | Tag name a cs =>
-      HG name a cs ((fix go (l : list tree) : Forall P l :=
-                       match l with
-                       | [] => Forall_nil P
-                       | x :: r => Forall_cons x (tree_ind2 P HU HT HG x) (go r)
-                       end) cs)
+  | Tag name a cs => HG name a cs (go cs)
   end.
 
 (* what the renderer needs of a tree: every node is typed, text and attribute values are C strings,
@@ -565,7 +565,7 @@ Lemma render_rec_is_snprintf : forall t c buf ptr buflen,
   renderable t -> bnd buf ptr buflen ->
   render_rec c t buf ptr buflen = snprintf buf ptr buflen (render c t).
 Proof.
-  induction t as [|s|name a cs IH] using tree_ind2; intros c buf ptr buflen R B.
+  induction t as [cs0 IH0|s|name a cs IH] using tree_ind2; intros c buf ptr buflen R B.
   - inversion R.
   - inversion R as [s' NS|]; subst.
     cbn [render_rec render]. unfold emit_escaped. rewrite escape_xml_ok by exact NS.
@@ -981,13 +981,13 @@ Proof. intros [h|] H; [|exact I]. intros k HI. apply hash_keys_found; assumption
 (* E. copy, reply, reply_error, error_new                                               *)
 (* ==================================================================================== *)
 Inductive tree_wf : tree -> Prop :=
-| wf_unk : tree_wf Unk
+| wf_unk : forall cs, Forall tree_wf cs -> tree_wf (Unk cs)
 | wf_text : forall s, tree_wf (Text s)
 | wf_tag : forall name a cs, attrs_ok a -> Forall tree_wf cs -> tree_wf (Tag name a cs).
 
 (* same node types, names, text, child order; the same attribute *set* (enumeration order may differ) *)
 Inductive tree_equiv : tree -> tree -> Prop :=
-| te_unk : tree_equiv Unk Unk
+| te_unk : forall cs cs', Forall2 tree_equiv cs cs' -> tree_equiv (Unk cs) (Unk cs')
 | te_text : forall s, tree_equiv (Text s) (Text s)
 | te_tag : forall name a a' cs cs',
     (forall k, attr_get a' k = attr_get a k) -> attrs_ok a' ->
@@ -1030,40 +1030,42 @@ Proof.
   - exists None. split; [reflexivity|]. split; [exact I|]. reflexivity.
 Qed.
 
-Definition copy_list := fix go (cs : list tree) : option (list tree) :=
-  match cs with
-  | [] => Some []
-  | ch :: r =>
-      match copy_tree ch with
-      | None => None
-      | Some ch' => match go r with Some r' => Some (ch' :: r') | None => None end
-      end
-  end.
-
 Lemma copy_tree_tag : forall name a cs,
   copy_tree (Tag name a cs) =
   match copy_attrs a with
   | None => None
-  | Some a' => match copy_list cs with None => None | Some cs' => Some (Tag name a' cs') end
+  | Some a' => match copy_list copy_tree cs with None => None | Some cs' => Some (Tag name a' cs') end
   end.
 Proof. reflexivity. Qed.
+
+Lemma copy_tree_unk : forall cs,
+  copy_tree (Unk cs) = match copy_list copy_tree cs with None => None | Some cs' => Some (Unk cs') end.
+Proof. reflexivity. Qed.
+
+Lemma copy_list_spec : forall cs,
+  Forall (fun t => tree_wf t -> exists t', copy_tree t = Some t' /\ tree_equiv t t' /\ tree_wf t') cs ->
+  Forall tree_wf cs ->
+  exists cs', copy_list copy_tree cs = Some cs' /\ Forall2 tree_equiv cs cs' /\ Forall tree_wf cs'.
+Proof.
+  induction cs as [|ch r IHr]; intros IH WC; [exists []; repeat split; constructor|].
+  inversion IH as [|? ? I1 I2]; subst. inversion WC as [|? ? W1 W2]; subst.
+  destruct (I1 W1) as (ch' & E1 & Q1 & V1). destruct (IHr I2 W2) as (r' & E2 & Q2 & V2).
+  exists (ch' :: r'). cbn [copy_list]. rewrite E1, E2.
+  repeat split; constructor; assumption.
+Qed.
 
 (* xmpp_stanza_copy never fails on a well-formed tree and yields an equal tree *)
 Lemma copy_tree_spec : forall t, tree_wf t -> exists t', copy_tree t = Some t' /\ tree_equiv t t' /\ tree_wf t'.
 Proof.
-  induction t as [|s|name a cs IH] using tree_ind2; intro W.
-  - exists Unk. repeat split; constructor.
+  induction t as [cs IH|s|name a cs IH] using tree_ind2; intro W.
+  - inversion W as [? WC| |]; subst. rewrite copy_tree_unk.
+    destruct (copy_list_spec cs IH WC) as (cs' & -> & Q & V).
+    exists (Unk cs'). repeat split; constructor; assumption.
   - exists (Text s). repeat split; constructor.
   - inversion W as [| |? ? ? OA WC]; subst.
     rewrite copy_tree_tag.
     destruct (copy_attrs_spec a OA) as (a' & -> & OA' & G).
-    assert (HC : exists cs', copy_list cs = Some cs' /\ Forall2 tree_equiv cs cs' /\ Forall tree_wf cs').
-    { clear W. induction cs as [|ch r IHr]; [exists []; repeat split; constructor|].
-      inversion IH as [|? ? I1 I2]; subst. inversion WC as [|? ? W1 W2]; subst.
-      destruct (I1 W1) as (ch' & E1 & Q1 & V1). destruct (IHr I2 W2) as (r' & E2 & Q2 & V2).
-      exists (ch' :: r'). cbn [copy_list]. rewrite E1. fold copy_list. rewrite E2.
-      repeat split; constructor; assumption. }
-    destruct HC as (cs' & -> & Q & V).
+    destruct (copy_list_spec cs IH WC) as (cs' & -> & Q & V).
     exists (Tag name a' cs'). repeat split; constructor; assumption.
 Qed.
 
@@ -1115,7 +1117,7 @@ Proof.
     subst d1. rewrite attr_get_del by exact O1. rewrite N1. apply G.
 Qed.
 
-Lemma stanza_reply_not_tag : stanza_reply Unk = None /\ forall s, stanza_reply (Text s) = None.
+Lemma stanza_reply_not_tag : (forall cs, stanza_reply (Unk cs) = None) /\ forall s, stanza_reply (Text s) = None.
 Proof. split; reflexivity. Qed.
 
 Lemma lits_eq : lit 0 = s_error /\ lit 1 = s_error /\ lit 2 = rfc_ns_stanzas /\ lit 3 = s_text /\ lit 4 = rfc_ns_stanzas.
@@ -1215,7 +1217,7 @@ Section CanonList.
     match cs with
     | [] => flush acc
     | Text s :: r => canon_list r (acc ++ s)
-    | Unk :: r => canon_list r acc
+    | Unk _ :: r => canon_list r acc
     | (Tag _ _ _ as e) :: r => flush acc ++ f e :: canon_list r []
     end.
 End CanonList.
@@ -1229,7 +1231,7 @@ Definition canon_attrs (a : attrs) : list (bstr * bstr) :=
 
 Fixpoint canon (dns : bstr) (t : tree) : xtree :=
   match t with
-  | Unk => XText []
+  | Unk _ => XText []
   | Text s => XText s
   | Tag name a cs => XElem (own_ns a dns) name (canon_attrs a) (canon_list (canon (own_ns a dns)) cs [])
   end.
@@ -1721,7 +1723,7 @@ Proof.
         rewrite E in HF. cbn [length] in HF. lia. }
       rewrite p_content_end. reflexivity.
   - inversion HI as [|? ? I1 I2]; subst. inversion HW as [|? ? W1 W2]; subst.
-    destruct ch as [|s|name a cs'].
+    destruct ch as [cs0|s|name a cs'].
     + inversion W1.
     + (* a text node joins the pending run *)
       cbn [flat_map canon_list]. cbn [render]. rewrite fmt_text_eq, escape_spec.
@@ -1760,7 +1762,7 @@ Qed.
 
 Lemma elem_roundtrip : forall t, rt_wf t -> elem_goal t.
 Proof.
-  induction t as [|s|name a cs IH] using tree_ind2; intro W; [exact I|exact I|].
+  induction t as [cs0 IH0|s|name a cs IH] using tree_ind2; intro W; [exact I|exact I|].
   inversion W as [|? ? ? GN OA GK WC]; subst.
   cbn [elem_goal]. intros c dns rest fuel CO HF.
   rewrite render_tag_eq in * by exact OA.
@@ -1907,3 +1909,136 @@ Lemma roundtrip_in_context_proof :
     (length (render c (Tag name a cs)) <= fuel)%nat ->
     p_elem fuel dns (render c (Tag name a cs) ++ rest) = Some (canon dns (Tag name a cs), rest).
 Proof. intros name a cs c dns rest fuel W. exact (elem_roundtrip _ W c dns rest fuel). Qed.
+
+(* ==================================================================================== *)
+(* H. copies live in fresh nodes: nothing done to older nodes can change them            *)
+(* ==================================================================================== *)
+Fixpoint tsize (t : tree) : nat :=
+  match t with
+  | Text _ => 1
+  | Unk cs => S (fold_right (fun c n => (tsize c + n)%nat) 0%nat cs)
+  | Tag _ _ cs => S (fold_right (fun c n => (tsize c + n)%nat) 0%nat cs)
+  end.
+Definition tsizes (cs : list tree) : nat := fold_right (fun c n => (tsize c + n)%nat) 0%nat cs.
+
+Definition alloc_goal (t : tree) : Prop :=
+  forall h parent, exists ext,
+    alloc_tree h parent t = (h ++ ext, length h) /\ length ext = tsize t /\
+    forall pre suf fuel, length pre = length h -> (tsize t <= fuel)%nat ->
+      tree_of fuel (pre ++ ext ++ suf) (length h) = Some t.
+
+Lemma alloc_list_spec : forall pid cs, Forall alloc_goal cs -> forall hh,
+  exists ext ids,
+    alloc_list (fun h0 ch => alloc_tree h0 pid ch) cs hh = (hh ++ ext, ids) /\
+    length ext = tsizes cs /\
+    forall pre suf fuel, length pre = length hh -> (tsizes cs <= fuel)%nat ->
+      trees_of (tree_of fuel (pre ++ ext ++ suf)) ids = Some cs.
+Proof.
+  intros pid cs. induction cs as [|ch r IH]; intros HA hh.
+  - exists [], []. cbn [alloc_list]. rewrite app_nil_r. split; [reflexivity|]. split; [reflexivity|]. intros; reflexivity.
+  - inversion HA as [|? ? A1 A2]; subst.
+    destruct (A1 hh pid) as (e1 & E1 & L1 & T1).
+    destruct (IH A2 (hh ++ e1)) as (e2 & ids & E2 & L2 & T2).
+    exists (e1 ++ e2), (length hh :: ids). cbn [alloc_list]. rewrite E1, E2.
+    split; [rewrite app_assoc; reflexivity|].
+    split; [rewrite app_length; unfold tsizes in *; cbn [fold_right]; lia|].
+    intros pre suf fuel LP LF. unfold tsizes in LF. cbn [fold_right] in LF. fold (tsizes r) in LF.
+    cbn [trees_of].
+    rewrite <- (app_assoc e1 e2 suf).
+    rewrite (T1 pre (e2 ++ suf) fuel LP) by lia.
+    replace (pre ++ e1 ++ e2 ++ suf) with ((pre ++ e1) ++ e2 ++ suf) by (rewrite <- app_assoc; reflexivity).
+    rewrite (T2 (pre ++ e1) suf fuel); [reflexivity|rewrite !app_length; lia|lia].
+Qed.
+
+Lemma upd_node_mid : forall (h : heap) n ext f,
+  upd_node (h ++ n :: ext) (length h) f = h ++ f n :: ext.
+Proof.
+  intros h n ext f. unfold upd_node.
+  rewrite nth_error_app2 by lia. rewrite Nat.sub_diag. cbn [nth_error].
+  induction h as [|x h IH]; [reflexivity|]. cbn [app length set_nth]. rewrite IH. reflexivity.
+Qed.
+
+Lemma nth_error_mid : forall (pre : heap) n rest k, length pre = k -> nth_error (pre ++ n :: rest) k = Some n.
+Proof. intros pre n rest k <-. rewrite nth_error_app2 by lia. rewrite Nat.sub_diag. reflexivity. Qed.
+
+Lemma alloc_tree_spec : forall t, alloc_goal t.
+Proof.
+  induction t as [cs IH|s|name a cs IH] using tree_ind2; intros h parent.
+  - cbn [alloc_tree].
+    destruct (alloc_list_spec (Some (length h)) cs IH (h ++ [mkN NUnknown [] None [] parent])) as (ext & ids & E & L & T).
+    rewrite E. rewrite <- app_assoc. cbn [app]. rewrite upd_node_mid. cbn [n_type n_data n_attrs n_parent].
+    eexists. split; [reflexivity|]. split; [cbn [length tsize]; fold (tsizes cs); lia|].
+    intros pre suf fuel LP LF. cbn [tsize] in LF. fold (tsizes cs) in LF.
+    destruct fuel as [|f]; [lia|]. cbn [tree_of app].
+    rewrite (nth_error_mid pre _ _ (length h) LP). cbn [n_type n_children].
+    replace (pre ++ mkN NUnknown [] None ids parent :: ext ++ suf)
+      with ((pre ++ [mkN NUnknown [] None ids parent]) ++ ext ++ suf) by (rewrite <- app_assoc; reflexivity).
+    rewrite T; [reflexivity|rewrite !app_length; cbn [length]; lia|lia].
+  - cbn [alloc_tree]. exists [mkN NText s None [] parent]. split; [reflexivity|]. split; [reflexivity|].
+    intros pre suf fuel LP LF. cbn [tsize] in LF. destruct fuel as [|f]; [lia|].
+    cbn [tree_of app]. rewrite (nth_error_mid pre _ _ (length h) LP). reflexivity.
+  - cbn [alloc_tree].
+    destruct (alloc_list_spec (Some (length h)) cs IH (h ++ [mkN NTag name a [] parent])) as (ext & ids & E & L & T).
+    rewrite E. rewrite <- app_assoc. cbn [app]. rewrite upd_node_mid. cbn [n_type n_data n_attrs n_parent].
+    eexists. split; [reflexivity|]. split; [cbn [length tsize]; fold (tsizes cs); lia|].
+    intros pre suf fuel LP LF. cbn [tsize] in LF. fold (tsizes cs) in LF.
+    destruct fuel as [|f]; [lia|]. cbn [tree_of app].
+    rewrite (nth_error_mid pre _ _ (length h) LP). cbn [n_type n_children n_data n_attrs].
+    replace (pre ++ mkN NTag name a ids parent :: ext ++ suf)
+      with ((pre ++ [mkN NTag name a ids parent]) ++ ext ++ suf) by (rewrite <- app_assoc; reflexivity).
+    rewrite T; [reflexivity|rewrite !app_length; cbn [length]; lia|lia].
+Qed.
+
+(* the handle returned by xmpp_stanza_copy denotes a tree equal to the original, stored entirely in nodes
+   that did not exist before; whatever is later done to the older nodes (any heap h2 that differs from the
+   heap after the copy only below the old size), the copy still denotes the same tree *)
+Lemma copy_is_independent : forall st d s st' id0 t,
+  slot st s = Some id0 -> tree_of (fuel_of (p_heap st)) (p_heap st) id0 = Some t -> tree_wf t ->
+  run_op st (OCopy d s) = (st', OHandle false) ->
+  exists id t',
+    slot st' d = Some id /\ (length (p_heap st) <= id)%nat /\ tree_equiv t t' /\
+    firstn (length (p_heap st)) (p_heap st') = p_heap st /\
+    forall h2, length h2 = length (p_heap st') ->
+               skipn (length (p_heap st)) h2 = skipn (length (p_heap st)) (p_heap st') ->
+               tree_of (fuel_of h2) h2 id = Some t'.
+Proof.
+  intros st d s st' id0 t HS HT W HR.
+  cbn [run_op] in HR. unfold with_tree in HR. rewrite HS, HT in HR.
+  destruct (copy_tree_spec t W) as (t' & EC & EQ & W').
+  rewrite EC in HR. unfold new_handle in HR.
+  destruct (alloc_tree_spec t' (p_heap st) None) as (ext & EA & LE & TT).
+  rewrite EA in HR. injection HR as <-.
+  exists (length (p_heap st)), t'. cbn [p_heap p_slots].
+  split.
+  { unfold slot. cbn [p_slots]. clear. generalize (p_slots st). induction d as [|d IH]; intros [|x l]; cbn; auto. }
+  split; [lia|]. split; [exact EQ|].
+  split; [rewrite firstn_app, Nat.sub_diag, firstn_O, app_nil_r, firstn_all; reflexivity|].
+  intros h2 L2 S2.
+  rewrite skipn_app, Nat.sub_diag, skipn_O, skipn_all, app_nil_l in S2.
+  rewrite <- (firstn_skipn (length (p_heap st)) h2). rewrite S2.
+  rewrite <- (app_nil_r ext) at 2.
+  rewrite app_length in L2.
+  apply TT.
+  - rewrite firstn_length. lia.
+  - unfold fuel_of. rewrite app_length, firstn_length. lia.
+Qed.
+
+(* setters only touch the node they are applied to *)
+Lemma upd_node_keeps_newer : forall (h : heap) id f n, (id < n)%nat ->
+  length (upd_node h id f) = length h /\ skipn n (upd_node h id f) = skipn n h.
+Proof.
+  intros h id f n H. unfold upd_node. destruct (nth_error h id) as [x|]; [|split; reflexivity].
+  split; [apply set_nth_length|].
+  revert id n H. induction h as [|y h IH]; intros id n H; [destruct id; reflexivity|].
+  destruct n as [|n]; [lia|]. destruct id as [|id]; cbn [set_nth skipn]; [reflexivity|].
+  apply IH. lia.
+Qed.
+
+(* a program whose copy is taken before the original is renamed: the copy still renders under its old name *)
+Example ex_copy_run :
+  match run [ONew 0; OSetName 0 [109]; OCopy 1 0; OSetName 0 [110]; OToText 1; OToText 0] with
+  | [_; _; OHandle false; ORc 0; OText (TOk b1 4); OText (TOk b0 4)] =>
+      cstring b1 = Some [60; 109; 47; 62] /\ cstring b0 = Some [60; 110; 47; 62]
+  | _ => False
+  end.
+Proof. vm_compute. split; reflexivity. Qed.
